@@ -2455,7 +2455,9 @@ int32_t processFinished(ssl_t *ssl, flightEncode_t *msg)
             psTraceErrr("Error snapshotting HS hash flight\n");
             psTraceIntInfo("sslSnapshotHSHash%d\n", rc);
             clearFlightList(ssl);
-            return rc;
+            /* The flight list is gone: the caller must not go on with it
+               (a zero length snapshot is a failure, too). */
+            return (rc < 0) ? rc : MATRIXSSL_ERROR;
         }
 
 # ifdef ENABLE_SECURE_REHANDSHAKES
